@@ -10,8 +10,6 @@ variable {α β κ : Type}
 /-- a user predicate of an `…IWithContext` operator: may replace the context -/
 abbrev Pred (α : Type) := Ctx → α → Nat → Ctx × Bool
 
-def fwdE {σ β : Type} (s : σ) (c : Ctx) (e : Err) : σ × List (Notif β) := (s, [.error c e])
-def fwdC {σ β : Type} (s : σ) (c : Ctx) : σ × List (Notif β) := (s, [.complete c])
 
 /-- `FilterIWithContext` (operator_filter.go) -/
 def filterM (p : Pred α) : Machine Nat α α where
